@@ -801,6 +801,28 @@ func (e *Env) RDiscovery() {
 			`importsFound[mustUnquote(n.Path.Value)] = n.Name.Name`: `n.Name != nil`,
 			`importsRequired["C"] = true`:                           `mustUnquote(n.Path.Value) == "C"`,
 		})
+		// a path may legally be imported twice in one file (`"net/url"` and `urlpkg "net/url"`, a
+		// package and its blank import for a linkname): the tables of updateImports are keyed by
+		// path, so the spec recorded last silently replaces the first, and the update pass then
+		// forces every spec of that path to one name. The per-spec code must at least notice that the
+		// path is there already (a presence test of the table among its conditions).
+		notices := false
+		for _, st := range specArm.Body {
+			ast.Inspect(st, func(n ast.Node) bool {
+				switch x := n.(type) {
+				case *ast.AssignStmt:
+					// `_, ok := importsFound[path]` / `prev, ok := …`
+					if len(x.Lhs) == 2 && len(x.Rhs) == 1 {
+						if ix, ok := ast.Unparen(x.Rhs[0]).(*ast.IndexExpr); ok && strings.HasSuffix(types.ExprString(ix.X), "importsFound") {
+							notices = true
+						}
+					}
+				}
+				return true
+			})
+		}
+		e.Run.Check("R-DISC", "updateImports: a second import spec for a path that already has one is noticed", e.Prog.Pos(specArm.Pos()), notices,
+			"the spec's alias is stored under its path without looking whether the path is there already: of two specs for one path (legal: `\"net/url\"` + `urlpkg \"net/url\"`, `\"crypto/sha1\"` + `_ \"crypto/sha1\"`) the later one wins, the other is rewritten to the same name or dropped, and an unedited file no longer prints as it was (it may no longer compile)")
 	} else {
 		e.Run.Violation("R-DISC", "scan has an *dst.ImportSpec arm (or records the specs of every import declaration in a loop)", e.Prog.Pos(lit.Pos()), "missing")
 	}
@@ -1141,9 +1163,9 @@ func (e *Env) resolveIdentReturns() {
 			cond:   `r.Uses != nil && ok(parent.(*SelectorExpr)) && parentField == "Sel" && ok(` + selX + `) && ok(r.Uses[` + selX + `]) && ok(r.Uses[` + selX + `].(*types.PkgName))`,
 			// a missing Uses entry reads as a nil Object, on which the type assertion fails as well
 			alt: `r.Uses != nil && ok(parent.(*SelectorExpr)) && parentField == "Sel" && ok(` + selX + `) && ok(r.Uses[` + selX + `].(*types.PkgName))`},
-		{what: "any other used identifier resolves to its declaring package, except struct fields and universe objects",
+		{what: "any other used identifier resolves to its declaring package when it denotes a package-level object (declared in the package's own scope): not struct fields, universe objects, parameters, locals, type parameters, labels or package names",
 			result: `r.Uses[id].Pkg().Path()`,
-			cond:   `r.Uses != nil && !(ok(parent.(*SelectorExpr)) && parentField == "Sel") && ok(r.Uses[id]) && !(ok(r.Uses[id].(*types.Var)) && r.Uses[id].(*types.Var).IsField()) && r.Uses[id].Pkg() != nil`},
+			cond:   `r.Uses != nil && !(ok(parent.(*SelectorExpr)) && parentField == "Sel") && ok(r.Uses[id]) && !(ok(r.Uses[id].(*types.Var)) && r.Uses[id].(*types.Var).IsField()) && r.Uses[id].Pkg() != nil && r.Uses[id].Parent() == r.Uses[id].Pkg().Scope()`},
 	}, `r.Uses == nil`)
 	check(load.PkgGoast, "goast", []wantReturn{
 		{what: "the Sel of a selector whose X is an undeclared identifier resolves through the file's import table",
@@ -2817,6 +2839,64 @@ func (e *Env) RNameSource() {
 		return true
 	})
 	e.Run.Floor("R-NAMESRC", "findAlias call sites", n, 1)
+	// the name such a pseudo-import has in the code is the pseudo-path itself ("C" is always C): an
+	// empty name would make restoreIdent print C.int as a bare int. Somewhere in the naming code
+	// the constant (or the path variable itself) is assigned, or handed to a closure that stores
+	// the names, in a place that is reached exactly for the pseudo-path; together with
+	// "never through findAlias" that is the only name it can get.
+	stores := 0
+	for _, k := range sortedKeys(consts) {
+		found := false
+		where := token.NoPos
+		holdsFor := func(n ast.Node, keyText string) bool {
+			cond, okc := pathCond(c, fd.Body.List, n)
+			if !okc {
+				return false
+			}
+			if cond == "" {
+				return false
+			}
+			// the statement is reached only when the path is the pseudo-path (cond ⇒ key == k); that
+			// it is reached for it at all is the business of "never through findAlias" and of the
+			// other stores, which are not reachable for it
+			only, dec := unsatWith(cond, keyText+" != "+strconv.Quote(k))
+			return dec && only
+		}
+		ast.Inspect(fd.Body, func(nd ast.Node) bool {
+			var vals []ast.Expr
+			switch x := nd.(type) {
+			case *ast.AssignStmt:
+				vals = x.Rhs
+			case *ast.CallExpr:
+				if id, ok := x.Fun.(*ast.Ident); ok {
+					if lit, _ := funcLitNamed(info, fd, id.Name); lit != nil {
+						vals = x.Args
+					}
+				}
+			}
+			for _, v := range vals {
+				tv, ok := info.Types[v]
+				if !ok || tv.Value == nil || tv.Value.Kind() != constant.String || constant.StringVal(tv.Value) != k {
+					continue
+				}
+				// which variable holds the path here: any identifier compared with the constant in
+				// the enclosing conditions
+				cond, _ := pathCond(c, fd.Body.List, nd)
+				for _, m := range regexp.MustCompile(`(\w+) == `+regexp.QuoteMeta(strconv.Quote(k))).FindAllStringSubmatch(cond, -1) {
+					if holdsFor(nd, m[1]) {
+						found = true
+						where = nd.Pos()
+					}
+				}
+			}
+			return true
+		})
+		stores++
+		_ = where
+		e.Run.Check("R-NAMESRC", fmt.Sprintf("updateImports: the pseudo-import %q is called %s in the code", k, k), e.Prog.Pos(fd.Pos()), found,
+			fmt.Sprintf("nothing in updateImports assigns the name %q under a condition that holds whenever the path is %q: identifiers that carry that path (the types-based resolver gives C.int one) are restored with an empty or invented name instead of %s", k, k, k))
+	}
+	e.Run.Floor("R-NAMESRC", "name stores reachable for a pseudo-import", stores, 1)
 }
 
 // specsAlias: the local named l in fd stands for a block's Specs: it is defined as `l := B.Specs`,
@@ -2897,8 +2977,8 @@ func (e *Env) closureParamFrom(info *types.Info, c *schema.Ctx, fd *ast.FuncDecl
 		}
 		calls++
 		a := ast.Unparen(cl.Args[pidx])
-		if lit, isLit := schema.StringLit(a); isLit && lit == "" {
-			return true
+		if _, isLit := schema.StringLit(a); isLit {
+			return true // a constant name (the empty one of dot/blank imports, the C of cgo): never a candidate
 		}
 		if id, ok := a.(*ast.Ident); ok && firstResultOf(info, c, fd, fnObj, c.ObjOf(id)) {
 			return true
